@@ -243,6 +243,10 @@ func GenReq(t *rapid.T, idx int, o ReqOpts) (*wire.Req, *ReqInfo) {
 		} else if o.TabOWS && o.Fold && rapid.IntRange(0, 9).Draw(t, "foldedLength") == 0 {
 			// the value on a continuation line of its own ("Content-Length:" CRLF SP "3"): a folded framing field
 			v = rapid.SampledFrom([]string{"\r\n ", "\r\n\t", "\r\n  "}).Draw(t, "foldSep") + v
+			if rapid.IntRange(0, 2).Draw(t, "emptyContinuationBehind") == 0 {
+				// ... or in front of an empty continuation line: what is left around the value after unfolding is OWS
+				v += rapid.SampledFrom([]string{" \r\n ", "\r\n\t", "\t\r\n "}).Draw(t, "foldSepBehind")
+			}
 			info.Folded = true
 		}
 		framingLines = append(framingLines, wire.KV{K: name, V: v})
